@@ -8,10 +8,15 @@ Tie K: `visit_Constant` (real visitor objects of the three backends) against `re
        generated constants of every kind; the real pipeline (apply_ast_transformations +
        write_cpp_files) on all three backends with a constant in every position (method argument,
        comparison, arithmetic operand, column value, bank, tree name, column name, dict key); the
-       real booking emitters against the model's lines.
+       real booking emitters against the model's lines; stored constants: queries whose value is one of their
+       numeric constants (conditional expressions nested to depth 3 under random tests, as one column, in tuples and
+       dicts) — the conversions each constant undergoes on its way into the column, read off the generated loop
+       body, against the model's (`Carrier.columnPaths`).
 Oracle: the decidable Spec (`OutcomeOk`, `constAfter`, `nameAt`, `roundsTo`) evaluated by the Lean
        driver on what the IMPLEMENTATION emitted; and g++ itself: the emitted literals are compiled
-       into an echo program whose bytes / bits / types are compared with the Python values.
+       into an echo program whose bytes / bits / types are compared with the Python values; for stored constants
+       `StoredOk` (literal of the constant + exact C++ conversions along the declared types) through the driver, and
+       the generated loop body compiled and run on mock objects: what the column receives against Python's value.
 """
 from __future__ import annotations
 
@@ -64,6 +69,10 @@ THEOREMS = [
     "FaxVerif.C18.sub_negative_counterexample",
     "FaxVerif.C18.const_ok_partial",
     "FaxVerif.C18.const_ok_counterexample",
+    "FaxVerif.C18.storable_literal",
+    "FaxVerif.C18.carrier_stored_ok",
+    "FaxVerif.C18.stored_counterexamples",
+    "FaxVerif.C18.ifexp_str_counterexample",
     "FaxVerif.C18.bank_roundtrip",
     "FaxVerif.C18.bank_roundtrip_trigraphs",
     "FaxVerif.C18.names_roundtrip",
@@ -78,7 +87,12 @@ RULE = (
     "None/bytes/complex/Ellipsis/tuple and inf/nan as refusals. pipeline stream: one query per (backend, position, "
     "constant) through apply_ast_transformations + write_cpp_files. book / names streams: the real booking emitters and the "
     "whole pipeline on random tree names, column names and dict keys over all characters (quotes, backslashes, LF/CR, '?' "
-    "included; column names sent through the pipeline without LF/CR). A case is non-trivial when the constant is none of the six the repo's tests use in kind and shape: "
+    "included; column names sent through the pipeline without LF/CR). stored stream: per-object Select whose value is one of its "
+    "numeric constants — a bare constant or conditional expressions nested up to depth 3 (every ordered pair of kinds int / "
+    "fractional float / integral float / bool in the two arms first, then random trees; tests drawn from 12 comparisons on "
+    "pt()/eta() combined with and/or/not; negative numbers as one Constant node or as the parser's UnaryOp; one column, tuple or "
+    "dict; 25% through qastle), judged by StoredOk on the conversion chain read off the generated loop body and by running the "
+    "compiled loop body on 4 mock objects. A case is non-trivial when the constant is none of the six the repo's tests use in kind and shape: "
     "a string with a character outside [A-Za-z0-9_ ], an int with |n|>9, a float whose repr has an exponent or more "
     "than 4 characters, a refusal, or any pipeline/book case with such a constant; distinct = distinct (stream, "
     "position, backend, constant)."
@@ -90,6 +104,7 @@ TRUSTED_BASE = [
     "g++ converts a decimal floating literal to the nearest double (checked bit-for-bit on the sample by the echo program)",
     "UTF-8 as the encoding Python writes the generated files in and g++ reads them in; strings are modelled as lists of Unicode scalar values",
     "the harness tools/props/c18.py (generators, anchors that locate a constant in a generated line, canonicalisation)",
+    "stored constants: the C++ arithmetic conversions as transcribed in Spec.lean (convTo: LP64, binary64, truncation toward zero, int->double exact below 2^53), the harness's reader of declarations / assignments / static_casts of the generated loop body (a form it does not know is a broken correspondence, never a pass), and the mock object + g++ run that checks both on every case",
 ]
 ASSUMPTIONS = [
     "constants arrive as ast.Constant nodes (Python 3.8+); visit_Num / visit_Str are dead code under Python 3.12 and are not exercised",
@@ -1239,7 +1254,10 @@ def book_compare(ctx, case, backend, tree, impl_lines: Dict[str, List[str]], mod
     # second, table-independent oracle: the strings the implementation's booking lines carry
     names = [tree] + [m["name"] for m in model["book"] if m["name"] is not None]
     # (the leaf's variable is cut off: in a generated file it repeats the column name as an identifier, which is C02's business)
-    scan = [l[: l.rfind(", &")] if ", &" in l else l for l in impl_lines["book"]]
+    # (only on the lines that book a branch: a tree name may itself contain `, &`; the last occurrence: so may a column name)
+    mb = model["book"]
+    leafline = lambda k, l: (mb[k]["name"] is not None) if len(mb) == len(impl_lines["book"]) else "->Branch(" in l.split('"')[0]
+    scan = [l[: l.rfind(", &")] if ", &" in l and leafline(k, l) else l for k, l in enumerate(impl_lines["book"])]
     reqs.append({"op": "linestrs", "lines": [cp(l) for l in scan]})
     where.append({"case": case, "backend": backend, "which": "book", "carried": names, "line": " | ".join(impl_lines["book"]), "key": known_key})
     if backend == "atlas":
@@ -1579,6 +1597,457 @@ def lexer_validation(ctx, thorough: bool):
 
 
 # --------------------------------------------------------------------------------------------
+# stored constants: a numeric constant that reaches the output through a temporary
+# (arms of conditional expressions nested to any depth, columns of a per-object Select)
+# --------------------------------------------------------------------------------------------
+# A *carrier* is an expression whose value is one of its constants: {"c": value, "form": "node"|"unary"} or
+# {"ite": [test source, carrier, carrier]}. "unary" = a negative number as Python's parser delivers it
+# (UnaryOp(USub, Constant(|v|))), "node" = one Constant node (qastle / hand-built ASTs).
+TEST_ATOMS = [
+    "j.pt() > 30000.0", "j.pt() > 1.0", "j.eta() < 2.0", "j.eta() > 0.5", "j.pt() <= 100", "j.eta() >= -0.5",
+    "j.pt() == 1.5", "j.pt() != 1.5", "j.pt() < 40.5", "j.eta() <= 0.75", "2.0 > j.eta()", "1 < j.pt()",
+]
+MOCK_OBJECTS = [(40000.0, 0.25), (1.5, 3.0), (0.25, 0.75), (50.0, -1.0)]  # (pt, eta): every atom is true on one and false on another
+
+
+def gen_test(rng) -> str:
+    a = lambda: rng.choice(TEST_ATOMS)
+    r = rng.random()
+    if r < 0.5:
+        return a()
+    if r < 0.65:
+        return f"{a()} and {a()}"
+    if r < 0.8:
+        return f"{a()} or {a()}"
+    if r < 0.9:
+        return f"not {a()}"
+    return f"{a()} and ({a()} or {a()})"
+
+
+def gen_stored_num(rng) -> Any:
+    r = rng.random()
+    if r < 0.42:
+        return gen_int32(rng)
+    if r < 0.92:
+        return gen_finite_float(rng)
+    return rng.random() < 0.5
+
+
+def gen_carrier(rng, depth: int) -> Dict[str, Any]:
+    if depth <= 0 or rng.random() < (0.0 if depth >= 3 else 0.35):
+        v = gen_stored_num(rng)
+        neg = type(v) in (int, float) and (v < 0 or (type(v) is float and math.copysign(1.0, v) < 0)) and v != -(2**31)
+        return {"c": v, "form": "unary" if neg and rng.random() < 0.5 else "node"}
+    return {"ite": [gen_test(rng), gen_carrier(rng, depth - 1), gen_carrier(rng, depth - 1)]}
+
+
+def carrier_consts(k: Dict[str, Any]) -> List[Any]:
+    return [k["c"]] if "c" in k else carrier_consts(k["ite"][1]) + carrier_consts(k["ite"][2])
+
+
+def carrier_src(k: Dict[str, Any], names: List[Tuple[str, Any]]) -> str:
+    """Python source with one placeholder name per constant (source order); `names` collects (placeholder, node value)"""
+    if "c" in k:
+        n = "__K%d__" % len(names)
+        if k.get("form") == "unary":
+            names.append((n, -k["c"]))
+            return f"(-{n})"
+        names.append((n, k["c"]))
+        return n
+    t, a, b = k["ite"]
+    sa = carrier_src(a, names)
+    return f"({sa} if {t} else {carrier_src(b, names)})"
+
+
+def carrier_json(k: Dict[str, Any]) -> Dict[str, Any]:
+    return {"c": describe(k["c"]), "form": k.get("form", "node")} if "c" in k else {"ite": [k["ite"][0], carrier_json(k["ite"][1]), carrier_json(k["ite"][2])]}
+
+
+def carrier_unjson(k: Dict[str, Any]) -> Dict[str, Any]:
+    return {"c": value_of(k["c"]), "form": k.get("form", "node")} if "c" in k else {"ite": [k["ite"][0], carrier_unjson(k["ite"][1]), carrier_unjson(k["ite"][2])]}
+
+
+def carrier_lean(k: Dict[str, Any]) -> Dict[str, Any]:
+    return {"c": const_json(k["c"])} if "c" in k else {"ite": [carrier_lean(k["ite"][1]), carrier_lean(k["ite"][2])]}
+
+
+def carrier_size(k: Dict[str, Any]) -> int:
+    return 1 if "c" in k else 1 + carrier_size(k["ite"][1]) + carrier_size(k["ite"][2])
+
+
+class _MockObj:
+    def __init__(self, pt, eta):
+        self._pt, self._eta = pt, eta
+
+    def pt(self):
+        return self._pt
+
+    def eta(self):
+        return self._eta
+
+
+def carrier_value(k: Dict[str, Any], obj: Tuple[float, float]) -> Any:
+    """what Python makes of the carrier on that object"""
+    if "c" in k:
+        return k["c"]
+    t, a, b = k["ite"]
+    return carrier_value(a if eval(t, {"j": _MockObj(*obj)}) else b, obj)
+
+
+STORED_LAYOUTS = {"single": 1, "tuple": 2, "dict": 2}
+
+
+def stored_query(backend: str, layout: str, ks: List[Dict[str, Any]]) -> Tuple[str, Dict[str, Any]]:
+    names: List[Tuple[str, Any]] = []
+    es = [carrier_src(k, names) for k in ks]
+    if layout == "single":
+        body = es[0]
+    elif layout == "tuple":
+        body = "(" + ", ".join(es) + ")"
+    else:
+        body = "{" + ", ".join("'c%d': %s" % (i, e) for i, e in enumerate(es)) + "}"
+    src = f"Select(SelectMany(EventDataset('x'), lambda e: e.{BACKENDS[backend]['coll']}('J')), lambda j: {body})"
+    return src, dict(names)
+
+
+def gen_stored_cases(ctx, n: int) -> List[Dict[str, Any]]:
+    rng = ctx.rng
+    out = []
+    # one conditional between two literals for every ordered pair of kinds (int, fractional float, integral float,
+    # bool), values drawn; then random carriers
+    def of_kind(kd):
+        while True:
+            v = gen_int32(rng) if kd == "int" else gen_finite_float(rng) if kd in ("frac", "whole") else rng.random() < 0.5
+            if kd == "frac" and (v == int(v) if abs(v) < 2.0**62 else True):
+                continue
+            if kd == "whole":
+                v = float(rng.choice([0, 1, 2, -1, 7, 100, -40, 2**31, 10**6]) if rng.random() < 0.7 else gen_int32(rng))
+            return v
+
+    kinds = ["int", "frac", "whole", "bool"]
+    for i, (ka, kb) in enumerate((x, y) for x in kinds for y in kinds):
+        out.append({"backend": list(BACKENDS)[i % 3], "layout": "single", "ks": [{"ite": [rng.choice(TEST_ATOMS), {"c": of_kind(ka), "form": "node"}, {"c": of_kind(kb), "form": "node"}]}], "qastle": False})
+    i = 0
+    while len(out) < n:
+        b = list(BACKENDS)[i % 3]
+        layout = ["single", "tuple", "single", "dict"][(i // 3) % 4]
+        i += 1
+        ks = [gen_carrier(rng, rng.choice([0, 1, 1, 1, 2, 2, 3])) for _ in range(STORED_LAYOUTS[layout])]
+        out.append({"backend": b, "layout": layout, "ks": ks, "qastle": rng.random() < 0.25})
+    return out[:n]
+
+
+_CAST = re.compile(r"^static_cast<\s*([A-Za-z_][\w ]*?)\s*>\s*\((.*)\)$", re.S)
+
+
+def _balanced(t: str) -> bool:
+    d = 0
+    for ch in t:
+        d += ch == "("
+        d -= ch == ")"
+        if d < 0:
+            return False
+    return d == 0
+
+
+def strip_rhs(rhs: str) -> Tuple[List[str], bool, str]:
+    """(types of the written casts, innermost first; negated?; what is left) of `static_cast<T>((-(x)))`-like text"""
+    casts: List[str] = []
+    neg = False
+    t = rhs.strip()
+    while True:
+        m = _CAST.match(t)
+        if m and _balanced(m.group(2)) and not neg:  # (a cast under a minus sign is not read: the text stays as it is)
+            casts.insert(0, m.group(1))
+            t = m.group(2).strip()
+            continue
+        if t.startswith("(") and t.endswith(")") and _balanced(t[1:-1]):
+            t = t[1:-1].strip()
+            continue
+        if t.startswith("-(") and t.endswith(")") and _balanced(t[2:-1]):
+            neg = not neg
+            t = t[2:-1].strip()
+            continue
+        return casts, neg, t
+
+
+_NUMLIT = re.compile(r"^(-?(\d[\w.]*([eE][+-]?\d+)?[\w]*|\.\d[\w.+-]*)|true|false)$")
+
+
+def loop_body(text: str) -> Optional[Tuple[str, List[str]]]:
+    """(loop variable, stripped lines of the body of the first range-for) of a generated source file"""
+    lines = text.split("\n")
+    for i, l in enumerate(lines):
+        m = re.match(r"^\s*for \(auto &&(\w+) : \*\w+\)\s*$", l)
+        if not m:
+            continue
+        depth, body = 0, []
+        for l2 in lines[i + 1 :]:
+            st = l2.strip()
+            if st == "{":
+                depth += 1
+                if depth == 1:
+                    continue
+            elif st == "}":
+                depth -= 1
+                if depth == 0:
+                    return m.group(1), body
+            if st:
+                body.append(st)
+        return None
+    return None
+
+
+def column_decls(backend: str, files: Dict[str, str]) -> List[Tuple[str, str]]:
+    """(variable, declared type) of the output columns, in the order they are booked (the variables are those whose
+    address the booking lines hand to the tree)"""
+    out = []
+    for var in extract_book_lines(backend, files[BACKENDS[backend]["main"]])["vars"]:
+        m = re.search(r"^\s*([A-Za-z_][\w:<> ]*?)\s+" + re.escape(var) + r";", files[BACKENDS[backend]["decl"]], re.M)
+        if m and re.match(r"^\w+$", var):
+            out.append((var, m.group(1)))
+    return out
+
+
+def literal_paths(body: List[str], cols: Dict[str, str]) -> Optional[List[Dict[str, Any]]]:
+    """def-use chains of the numeric literals assigned in the body, in text order: for each the literal's text, the
+    types it is converted to (written casts and declared types of the variables, the column last) and the column.
+    None when the body has a form this reader does not know."""
+    types = dict(cols)
+    assigns: List[Tuple[str, List[str], bool, str]] = []
+    for l in body:
+        m = re.match(r"^([A-Za-z_][\w:<> ]*?) (\w+);$", l)
+        if m and "=" not in l and m.group(1) not in ("return", "else"):
+            types[m.group(2)] = m.group(1)
+            continue
+        m = re.match(r"^(\w+) = (.*);$", l, re.S)
+        if m:
+            casts, neg, rest = strip_rhs(m.group(2))
+            assigns.append((m.group(1), casts, neg, rest))
+    out = []
+    for lhs, casts, neg, rest in assigns:
+        if not (_NUMLIT.match(rest) or (len(rest) >= 2 and rest[0] == '"' and rest[-1] == '"' and not neg)):
+            continue
+        text = rest
+        if neg:
+            text = text[1:] if text.startswith("-") else "-" + text
+        if lhs not in types:
+            return None
+        chain = list(casts) + [types[lhs]]
+        v, seen = lhs, {lhs}
+        while v not in cols:
+            nxt = [(l2, c2) for l2, c2, n2, r2 in assigns if r2 == v and not n2]
+            if len(nxt) != 1 or nxt[0][0] in seen or nxt[0][0] not in types:
+                return None
+            v = nxt[0][0]
+            seen.add(v)
+            chain += list(nxt[0][1]) + [types[v]]
+        out.append({"text": text, "chain": chain, "col": v, "line": f"{lhs} = ...{rest}..."})
+    return out
+
+
+STORED_MOCK_HEAD = r"""#include <cstdio>
+#include <cstring>
+static int IDX = 0;
+static void hx(const void* p, size_t n){ const unsigned char* b=(const unsigned char*)p; for(size_t i=0;i<n;i++) printf("%02x", b[i]); printf("\n"); }
+static void show(int v){ printf("%d N int ", IDX); hx(&v, sizeof v); }
+static void show(unsigned v){ printf("%d N unsigned int ", IDX); hx(&v, sizeof v); }
+static void show(long v){ printf("%d N long ", IDX); hx(&v, sizeof v); }
+static void show(unsigned long v){ printf("%d N unsigned long ", IDX); hx(&v, sizeof v); }
+static void show(long long v){ printf("%d N long long ", IDX); hx(&v, sizeof v); }
+static void show(float v){ printf("%d N float ", IDX); hx(&v, sizeof v); }
+static void show(double v){ printf("%d N double ", IDX); hx(&v, sizeof v); }
+static void show(bool v){ printf("%d N bool ", IDX); hx(&v, sizeof v); }
+struct J { double _pt, _eta; double pt() const { return _pt; } double eta() const { return _eta; } };
+struct MockTree { void Fill(){} };
+static MockTree g_tree; static MockTree* myTree = &g_tree; static MockTree* tree(const char*){ return &g_tree; }
+"""
+
+
+def stored_block(i: int, var: str, body: List[str], cols: List[Tuple[str, str]], obj: Tuple[float, float]) -> str:
+    text = "\n".join(body)
+    ptr = re.search(r"\b" + re.escape(var) + r"->", text) is not None
+    bind = f"const J* {var} = &o;" if ptr else f"const J& {var} = o;"
+    decl = " ".join(f"{t} {n};" for n, t in cols)
+    shows = " ".join(f"show({n});" for n, _ in cols)
+    return "static void blk_%d(){ IDX = %d; J o{%r, %r}; %s (void)%s;\n%s\n%s\n%s\n}\n" % (i, i, obj[0], obj[1], bind, var, decl, text, shows)
+
+
+def run_stored_echo(blocks: List[str]) -> Dict[str, Any]:
+    d = Path(tempfile.mkdtemp(prefix="c18s"))
+    try:
+        main = "int main(){ " + " ".join("blk_%d();" % i for i in range(len(blocks))) + " return 0; }\n"
+        (d / "s.cpp").write_bytes((STORED_MOCK_HEAD + "".join(blocks) + main).encode("utf-8"))
+        p = subprocess.run(["g++", "-w", "-O0", "s.cpp", "-o", "s"], cwd=d, capture_output=True, text=True, timeout=600)
+        if p.returncode != 0:
+            return {"compile_error": p.stderr[:800]}
+        r = subprocess.run(["./s"], cwd=d, capture_output=True, text=True, timeout=120)
+        res: Dict[int, List[Any]] = {}
+        for ln in r.stdout.split("\n"):
+            m = re.match(r"^(\d+) N ([a-z ]+) ([0-9a-f]*)$", ln)
+            if m:
+                res.setdefault(int(m.group(1)), []).append((m.group(2), bytes.fromhex(m.group(3))))
+        return {"out": res}
+    finally:
+        shutil.rmtree(d, ignore_errors=True)
+
+
+def shown_number(ty: str, raw: bytes) -> Any:
+    if ty == "double":
+        return struct.unpack("<d", raw)[0]
+    if ty == "float":
+        return struct.unpack("<f", raw)[0]
+    if ty == "bool":
+        return raw != b"\x00"
+    return int.from_bytes(raw, "little", signed=not ty.startswith("unsigned"))
+
+
+def same_number(want: Any, got: Any) -> bool:
+    """numerically the same (1 and 1.0 and True; the sign of a floating zero counts when both are floating)"""
+    from fractions import Fraction
+
+    if isinstance(got, float) and (got != got or got in (math.inf, -math.inf)):
+        return False
+    if Fraction(want) != Fraction(got):
+        return False
+    if isinstance(want, float) and want == 0:
+        return isinstance(got, float) and math.copysign(1.0, want) == math.copysign(1.0, got)
+    return True
+
+
+def stored_stream(ctx, cases: List[Dict[str, Any]], workers: int = 4):
+    staged = []
+    for c in cases:
+        b, layout, ks = c["backend"], c["layout"], c["ks"]
+        src, names = stored_query(b, layout, ks)
+        a = build_ast(src, names)
+        via = "ast"
+        if c.get("qastle"):
+            a2 = qastle_roundtrip(a)
+            if a2 is not None:
+                a, via = a2, "qastle"
+        r = run_query(b, a)
+        ctx.check_time()
+        consts = [v for k in ks for v in carrier_consts(k)]
+        case = {"stream": "stored", "backend": b, "layout": layout, "via": via, "exprs": [carrier_json(k) for k in ks], "query": src, "constants": {n: describe(v) for n, v in names.items()}}
+        ctx.count(f"stored:backend:{b}")
+        ctx.count(f"stored:layout:{layout}")
+        ctx.count(f"stored:via:{via}")
+        ctx.count("stored:nodes:%d" % min(9, max(carrier_size(k) for k in ks)))
+        for v in consts:
+            ctx.count(f"stored:kind:{type(v).__name__}")
+        ctx.case(["stored", b, layout, case["exprs"]], any(nontrivial_const(v) for v in consts) or any("ite" in k for k in ks), {"backend": b, "query": src, "constants": {n: repr(v) for n, v in names.items()}})
+        key = "stored:%s:%s" % (b, json.dumps(case["exprs"], sort_keys=True, default=str))
+        st = {"c": c, "case": case, "key": key, "consts": consts, "r": r}
+        staged.append(st)
+        if "err" in r:
+            ctx.count("stored:impl-error:" + r["err"])
+            ctx.violation(key=key, what=f"a query selecting between numeric constants was refused on {b}: {r['err']}: {r.get('msg')} — {src} with {names!r}", case=case, observed=r, how="apply_ast_transformations + write_cpp_files on the query of `case`")
+            continue
+        lb = loop_body(r["files"][BACKENDS[b]["main"]])
+        cols = column_decls(b, r["files"])
+        if lb is None or len(cols) != len(ks):
+            ctx.disagreement("stored-shape", case, f"a range-for over the collection and {len(ks)} column declaration(s)", {"loop": lb is not None, "columns": cols})
+            continue
+        st["var"], st["body"], st["cols"] = lb[0], lb[1], cols
+        ps = literal_paths(lb[1], dict(cols))
+        if ps is not None:
+            # a carrier fills one column: its constants in source order are the literals flowing into that column in
+            # text order (the statements of an arm stand inside the arm's block); columns in the order of declaration
+            ps = [p_ for n_, _ in cols for p_ in ps if p_["col"] == n_]
+            per_col = [len([p_ for p_ in ps if p_["col"] == n_]) for n_, _ in cols]
+            if per_col != [len(carrier_consts(k)) for k in ks]:
+                ps = None
+        st["paths"] = ps
+        st["raw_paths"] = ps
+    # --- the Lean side: the model's conversion chains, and the Spec on the chains read off the generated text
+    reqs: List[Dict[str, Any]] = []
+    for st in staged:
+        if "body" not in st:
+            continue
+        st["i"] = len(reqs)
+        reqs += [{"op": "carrier", "k": carrier_lean(k)} for k in st["c"]["ks"]]
+        ps = st["paths"]
+        if ps is not None and len(ps) == len(st["consts"]):
+            st["j"] = len(reqs)
+            reqs += [{"op": "stored", "c": const_json(v), "text": cp(p_["text"]), "chain": p_["chain"]} for v, p_ in zip(st["consts"], ps)]
+    ans = ctx.driver(DRIVER, reqs)
+    for st in staged:
+        if "i" not in st:
+            continue
+        case, b = st["case"], st["c"]["backend"]
+        ma = ans[st["i"] : st["i"] + len(st["c"]["ks"])]
+        if any("bad" in a for a in ma):
+            continue
+        model_chains = [ch for a in ma for ch in a["paths"]]
+        if "j" not in st:
+            ctx.disagreement("stored-shape", case, {"literal assignments": len(st["consts"]), "chains": model_chains}, st["paths"])
+            continue
+        # a conversion to the type the value already has changes nothing (a written cast before the assignment, a copy
+        # into a second variable of the same type): chains are compared with consecutive repetitions removed
+        squeeze = lambda ch: [t for i_, t in enumerate(ch) if i_ == 0 or ch[i_ - 1] != t]
+        impl_chains = [squeeze(p_["chain"]) for p_ in st["paths"]]
+        if impl_chains != [squeeze(ch) for ch in model_chains]:
+            ctx.disagreement("stored-chain", case, [squeeze(ch) for ch in model_chains], impl_chains)
+        for v, p_, s_ in zip(st["consts"], st["paths"], ans[st["j"] : st["j"] + len(st["consts"])]):
+            if "bad" in s_:
+                continue
+            ctx.count("stored:spec:" + ("holds" if s_.get("holds") else "fails"))
+            if not s_.get("holds", False):
+                ctx.violation(
+                    key=st["key"],
+                    what=f"on {b}: in `{case['query']}` the constant {v!r} is assigned as `{p_['text']}` and converted through {' -> '.join(p_['chain'])} on its way into the column {p_['col']}: {s_.get('why')}",
+                    case=case,
+                    observed={"constant": describe(v), "assigned_text": p_["text"], "types_on_the_way": p_["chain"], "column": p_["col"], "body": st["body"]},
+                    how="apply_ast_transformations + write_cpp_files on the query of `case`; read the declarations and assignments of the loop body; StoredOk through the Lean driver",
+                )
+    # --- g++ as the judge: the generated loop body, run on mock objects; what the columns receive
+    jobs = []
+    for st in staged:
+        if "body" in st:
+            for obj in MOCK_OBJECTS:
+                jobs.append((st, obj))
+    chunks = [jobs[i : i + 160] for i in range(0, len(jobs), 160)]
+
+    def run_chunk(chunk):
+        return run_stored_echo([stored_block(i, st["var"], st["body"], st["cols"], obj) for i, (st, obj) in enumerate(chunk)])
+
+    with concurrent.futures.ThreadPoolExecutor(max_workers=workers) as ex:
+        results = list(ex.map(run_chunk, chunks))
+    for chunk, res in zip(chunks, results):
+        if "compile_error" in res:
+            done = set()
+            for st, obj in chunk:  # which query? one at a time (rare path)
+                if id(st) in done:
+                    continue
+                done.add(id(st))
+                one = run_stored_echo([stored_block(0, st["var"], st["body"], st["cols"], obj)])
+                if "compile_error" in one:
+                    ctx.violation(key=st["key"], what=f"g++ rejects the loop body generated on {st['c']['backend']} for `{st['case']['query']}`", case=st["case"], observed={"g++": one["compile_error"][:400], "body": st["body"]}, how="compile the generated loop body against a mock object with pt() and eta()")
+                    break
+            continue
+        for i, (st, obj) in enumerate(chunk):
+            got = res["out"].get(i, [])
+            want = [carrier_value(k, obj) for k in st["c"]["ks"]]
+            ctx.count("stored:g++:objects")
+            shown = [(ty, shown_number(ty, raw)) for ty, raw in got]
+            if len(shown) != len(want) or not all(same_number(w, g[1]) for w, g in zip(want, shown)):
+                ctx.violation(
+                    key=st["key"],
+                    what=f"on {st['c']['backend']}: `{st['case']['query']}` on an object with pt()={obj[0]!r}, eta()={obj[1]!r} has the value {want!r}; the generated code, compiled with g++, puts {[f'{ty} {v!r}' for ty, v in shown]} into the column(s)",
+                    case=dict(st["case"], object={"pt": obj[0], "eta": obj[1]}),
+                    observed={"columns_receive": [f"{ty} {v!r}" for ty, v in shown], "query_value": [repr(w) for w in want], "body": st["body"]},
+                    how="apply_ast_transformations + write_cpp_files; compile the generated loop body against a mock object with pt() and eta(); print the column variables",
+                )
+    ctx.extra_cov["gpp_stored_bodies"] = len(jobs)
+    return staged
+
+
+def stored_case_from_json(case: Dict[str, Any]) -> Dict[str, Any]:
+    return {"backend": case["backend"], "layout": case["layout"], "ks": [carrier_unjson(k) for k in case["exprs"]], "qastle": case.get("via") == "qastle"}
+
+
+# --------------------------------------------------------------------------------------------
 # known findings / fixed defects: replayed on every run
 # --------------------------------------------------------------------------------------------
 def run_lockstep(ctx, gens: List[Any]) -> List[Any]:
@@ -1701,6 +2170,35 @@ def entry_steps(ctx, e: Dict[str, Any]):
             if uncp(a.get("v")) != w:
                 fails.append({"backend": b, "line": line, "literal_denotes": uncp(a.get("v")), "name": w})
         return {"fails": fails} if fails else None
+    if kind == "stored":
+        ks = [carrier_unjson(k) for k in inp["exprs"]]
+        consts = [v for k in ks for v in carrier_consts(k)]
+        found = []
+        for b in BACKENDS:
+            src, names = stored_query(b, inp["layout"], ks)
+            r = run_query(b, build_ast(src, names))
+            if "err" in r:
+                continue  # refused: what the property asks for a constant that cannot be rendered
+            lb, cols = loop_body(r["files"][BACKENDS[b]["main"]]), column_decls(b, r["files"])
+            ps = literal_paths(lb[1], dict(cols)) if lb is not None else None
+            if ps is not None:
+                ps = [p_ for n_, _ in cols for p_ in ps if p_["col"] == n_]
+            if ps is None or len(ps) != len(consts):
+                fails.append({"backend": b, "observed": "accepted; the assignments of the constants were not found in the generated loop body", "body": lb[1] if lb else None})
+                continue
+            found.append((b, ps, lb, cols))
+        ans = yield [{"op": "stored", "c": const_json(v), "text": cp(p_["text"]), "chain": p_["chain"]} for _, ps, _, _ in found for v, p_ in zip(consts, ps)]
+        o = 0
+        for b, ps, lb, cols in found:
+            bad = [(v, p_, a) for v, p_, a in zip(consts, ps, ans[o : o + len(ps)]) if not a.get("holds", False)]
+            o += len(ps)
+            if bad:
+                f = {"backend": b, "assigned": [p_["text"] for _, p_, _ in bad], "types_on_the_way": bad[0][1]["chain"], "why": bad[0][2].get("why", bad[0][2]), "body": lb[1]}
+                if b == "atlas":  # g++ on the generated loop body
+                    g = run_stored_echo([stored_block(0, lb[0], lb[1], [], MOCK_OBJECTS[0])] if any(type(v) is str for v in consts) else [stored_block(0, lb[0], lb[1], cols, MOCK_OBJECTS[0])])
+                    f["g++"] = (g["compile_error"].split("error:")[1][:160].strip() if "error:" in g.get("compile_error", "") else "rejects the body") if "compile_error" in g else "compiles"
+                fails.append(f)
+        return {"fails": fails} if fails else None
     if kind == "trigraph":
         v = uncp(inp["cp"])
         r = impl_const(v)
@@ -1767,8 +2265,11 @@ def corpus_stream(ctx):
     books = [c for c in cs if c.get("stream") == "book"]
     if books:
         books_batch(ctx, books)
+    stored = [stored_case_from_json(c) for c in cs if c.get("stream") == "stored"]
+    if stored:
+        stored_stream(ctx, stored, 2)
     for c in cs:
-        if c.get("stream") not in ("unit", "pipeline", "book"):
+        if c.get("stream") not in ("unit", "pipeline", "book", "stored"):
             run_case(ctx, c, report=True)
 
 
@@ -1793,6 +2294,8 @@ def run_case(ctx, case: Dict[str, Any], report: bool) -> int:
     elif st == "echo":
         v = value_of(case["const"])
         echo_stream(ctx, [{"v": v, "impl": impl_const(v)}], 1, 1)
+    elif st == "stored":
+        stored_stream(ctx, [stored_case_from_json(case)], 1)
     elif st == "finding" or "kind" in case:
         f = replay_entry(ctx, {"input": case})
         if f is not None:
@@ -1834,6 +2337,9 @@ def run(ctx):
     line_echo_stream(ctx, staged, 2400 if thorough else 100, workers)
     _tick(ctx, "g++ line echo")
     ctx.check_time()
+    stored_stream(ctx, gen_stored_cases(ctx, 900 if thorough else 72), workers)
+    _tick(ctx, "stored")
+    ctx.check_time()
     book_stream(ctx, 9000 if thorough else 600)
     _tick(ctx, "book")
     names_pipeline_stream(ctx, 1500 if thorough else 90)
@@ -1851,7 +2357,7 @@ def run(ctx):
     ctx.extra_cov["exhaustive_part"] = "as_cpp_string_literal on every single Unicode scalar value (1,112,064 characters) when regenerating the escape table; the booking/fill emitters of all three backends on sentinel names"
     ctx.extra_cov["populations"] = {
         "inside_theorem_hypotheses": "every generated case: strings (all, compiled under both dialects), ints in the 32-bit range, finite floats, bools, refusals, names (all), non-negative operands after a minus",
-        "outside (defect exclusions)": "exercised only through the listed known findings: ints outside 32 bit, a negative constant directly after '-', NUL through const char*",
+        "outside (defect exclusions)": "exercised only through the listed known findings: ints outside 32 bit, a negative constant directly after '-', NUL through const char*, a string in an arm of a conditional expression",
     }
 
 
@@ -1874,6 +2380,8 @@ def search(ctx, broken):
         if not ctx.violations:
             pipeline_stream(ctx, qrun_pipeline_cases(400) + pipeline_cases(ctx, 900))
         if not ctx.violations:
+            stored_stream(ctx, gen_stored_cases(ctx, 300), 8)
+        if not ctx.violations:
             book_stream(ctx, 1500)
             names_pipeline_stream(ctx, 150)
         if not ctx.violations:
@@ -1892,6 +2400,8 @@ def search(ctx, broken):
 def shrink(ctx, hit):
     """strings: delete characters while the same stream still fails on the case (counters and findings untouched)"""
     case = hit["case"]
+    if case.get("stream") == "stored":
+        return shrink_stored(ctx, hit)
     if case.get("stream") not in ("unit", "pipeline") or case.get("const", {}).get("kind") != "str":
         return hit
     saved = (ctx.violations, ctx.broken, ctx.dist, ctx.evaluations, ctx.nontrivial_keys, ctx.samples)
@@ -1917,6 +2427,32 @@ def shrink(ctx, hit):
         ctx.violations, ctx.broken, ctx.dist, ctx.evaluations, ctx.nontrivial_keys, ctx.samples = saved
 
 
+def shrink_stored(ctx, hit):
+    """a failing query selecting between constants: the smallest conditional inside it that fails alone"""
+    case = hit["case"]
+
+    def subs(k):
+        return [] if "c" in k else [k] + subs(k["ite"][1]) + subs(k["ite"][2])
+
+    cands = sorted((k for e in case["exprs"] for k in subs(e)), key=lambda k: len(json.dumps(k)))
+    whole = len(json.dumps(case["exprs"]))
+    saved = (ctx.violations, ctx.broken, ctx.dist, ctx.evaluations, ctx.nontrivial_keys, ctx.samples, dict(ctx.extra_cov))
+    ctx.broken, ctx.dist, ctx.nontrivial_keys, ctx.samples = [], {}, set(), []
+    try:
+        for k in cands[:8]:
+            if len(json.dumps([k])) >= whole:
+                break
+            ctx.violations = []
+            stored_stream(ctx, [stored_case_from_json(dict(case, layout="single", exprs=[k]))], 1)
+            if ctx.violations:
+                return ctx.violations[0]
+        return hit
+    finally:
+        ctx.violations, ctx.broken, ctx.dist, ctx.evaluations, ctx.nontrivial_keys, ctx.samples = saved[:6]
+        ctx.extra_cov.clear()
+        ctx.extra_cov.update(saved[6])
+
+
 def replay(ctx, rep) -> int:
     logging.disable(logging.WARNING)
     case = rep["case"]
@@ -1938,8 +2474,9 @@ LEVEL_TEXT = (
     "for character, under C++17 lexing and under pre-C++17 lexing with trigraph replacement (by induction over the characters, over the escape table regenerated from the source on this run); every "
     "text of the grammar of repr(float) is a C++ double literal of the same exact decimal value; ints of the 32-bit range, "
     "bools, refusals of inf/nan and unsupported kinds; bank names in any surrounding text; ALL tree/branch names in the "
-    "regenerated booking lines of all three backends. Where the code violates the property the negation is proved on a "
-    "literal (int 3000000000, 2^64, '-5' after a minus, NUL through const char*) and replayed on the real code; repaired "
+    "regenerated booking lines of all three backends; every numeric constant that reaches a column through conditional expressions "
+    "of any depth keeps its value through the conversions on the way (carrier_stored_ok). Where the code violates the property the negation is proved on a "
+    "literal (int 3000000000, 2^64, '-5' after a minus, NUL through const char*, a string arm of a conditional) and replayed on the real code; repaired "
     "defects (unescaped strings and names, inf/nan, trigraphs) are replayed on every run as regressions. "
     "The model is tied to the code on every run by regenerated tables, by differential execution on thousands of constants "
     "through the real visitors and the real pipeline of all three backends, and the emitted literals are compiled with g++ "
@@ -1949,7 +2486,8 @@ LEVEL_NOTE = (
     "Theorem: all strings (both lexing dialects) / all finite repr texts / all ints in [-2^31, 2^31) / all tree, branch and bank names. "
     "Sampled only: that the hand model equals the Python (differential execution), that repr(x) rounds to x (exact check per "
     "sample), that the Lean lexer equals g++'s (echo program). Excluded by explicit hypotheses and listed as findings: ints "
-    "outside 32 bit, a negative constant node directly after '-', NUL through const char*."
+    "outside 32 bit, a negative constant node directly after '-', NUL through const char*, string arms of a conditional expression. "
+    "Stored constants: the theorem is about the model's conversion chains; that the generated code has these chains is sampled (chain read off the loop body + g++ run)."
 )
 TECHNIQUE = "Lean 4 theorems over a hand model and a Lean lexer of C++ literals + tables regenerated from the source + correspondence check against visit_Constant / the pipeline of all three backends + g++ echo of the emitted literals"
 DESIGN_REF = "DESIGN.md §4 C18"
